@@ -265,6 +265,10 @@ def lines_for_c14(rng, n):
                 if val < 128 and case == "mixed":
                     # FromStr must agree with from_hex on every string a &str can hold: every ASCII byte at every position
                     add("E fromstr " + hx(s))
+    # lengths that differ from 64 only above bit 31 / bit 32 (zero-page backed input, 64 valid digits in front)
+    good = _hexstr(rng, "lower")
+    for big in [(1 << 32) + 64, (1 << 33) + 64, (1 << 32) + 63, 1 << 32, (1 << 16) + 64, 256 + 64, 65]:
+        add(f"E fromhexbig {big} " + hx(good))
     # upper / lower / mixed renderings of the same value must decode alike
     for _ in range(40):
         h = rand_hash(rng)
